@@ -20,6 +20,14 @@ Theorem C15_gather_permutation : forall (X Y : Type) (f : X -> option Y) (xs : l
 Proof. exact SchedProofs.gather_permutation. Qed.
 Print Assumptions C15_gather_permutation.
 
+(* any two schedules that let every task finish gather identical results: the outcome is a function of the submitted
+   batch alone, never of the completion order, duplicated completion notices included *)
+Theorem C15_two_schedules_agree : forall (X Y : Type) (f : X -> option Y) (xs : list X) (s1 s2 : list nat),
+  (forall i, i < length xs -> In i s1) -> (forall i, i < length xs -> In i s2) ->
+  executor_path X Y f xs s1 = executor_path X Y f xs s2.
+Proof. exact SchedProofs.two_schedules_agree. Qed.
+Print Assumptions C15_two_schedules_agree.
+
 (* results are only read when every task has finished *)
 Theorem C15_waits_for_all : forall (X Y : Type) (f : X -> option Y) (xs : list X) (sigma : list nat) (i : nat),
   i < length xs -> ~ In i sigma -> executor_path X Y f xs sigma = None.
